@@ -1198,36 +1198,44 @@ Qed.
 (* ---------------------------------------------------------------------- *)
 Definition wgood (w : rworld) : Prop := 1 <= w_n w /\ 1 <= w_nc w /\ w_nch w = w_n w.
 
-(* open() in general: succeeds whenever the exposed count is right; warns iff
-   (on x.bin) the cached nbytes differs from the size of x.bin *)
+(* open() in general (tree at aa7f63d): whatever count the object currently
+   holds (meta file right or wrong) and whatever its cached nbytes, open()
+   succeeds, exposes the true count, installs the reader of the current file,
+   leaves nbytes alone, and warns iff the count was wrong and ignore_warnings is off *)
+Lemma r_open_gen w o : wgood w ->
+  exists o', r_open w o = Some o' /\ o_ns o' = w_n w /\ o_file o' = o_file o /\
+    o_nbytes o' = o_nbytes o /\
+    o_raw o' = (match o_file o with DBin => RawMemmap | DCbin => RawMtscomp end) /\
+    o_warn o' = negb (o_ns o =? w_n w) && negb (w_iw w).
+Proof.
+  intros [Hn [Hc Hh]]. unfold r_open. destruct (o_file o) eqn:Ef.
+  - assert (Hdiv : fsize w DBin / (2 * w_nc w) = w_n w).
+    { unfold fsize. replace (2 * w_n w * w_nc w) with (w_n w * (2 * w_nc w)) by lia.
+      apply Z.div_mul. lia. }
+    assert (Hm : negb (w_nc w * o_ns o * 2 =? fsize w DBin) = negb (o_ns o =? w_n w)).
+    { f_equal. unfold fsize. destruct (o_ns o =? w_n w) eqn:E.
+      - apply Z.eqb_eq in E. rewrite E. apply Z.eqb_eq. ring.
+      - apply Z.eqb_neq in E. apply Z.eqb_neq. intros H. apply E. nia. }
+    rewrite Hm.
+    assert (Hns : (if negb (o_ns o =? w_n w) then fsize w DBin / (2 * w_nc w) else o_ns o) = w_n w).
+    { destruct (o_ns o =? w_n w) eqn:E; cbn; [apply Z.eqb_eq in E; exact E|exact Hdiv]. }
+    rewrite Hns.
+    assert (Hchk : (0 <? w_n w) && (w_n w * w_nc w * 2 <=? fsize w DBin) = true).
+    { apply andb_true_intro. split; [apply Z.ltb_lt; lia|apply Z.leb_le; unfold fsize; lia]. }
+    rewrite Hchk. eexists. split; [reflexivity|]. cbn [o_ns o_file o_nbytes o_raw o_warn]. auto 6.
+  - rewrite Hh. rewrite (Z.eqb_sym (w_n w) (o_ns o)).
+    destruct (o_ns o =? w_n w) eqn:E; eexists; (split; [reflexivity|]); cbn [o_ns o_file o_nbytes o_raw o_warn];
+      [apply Z.eqb_eq in E; auto 6|auto 6].
+Qed.
+
 Lemma r_open_ok w o : wgood w -> o_ns o = w_n w ->
   exists o', r_open w o = Some o' /\ o_ns o' = w_n w /\ o_file o' = o_file o /\
     o_nbytes o' = o_nbytes o /\
     o_raw o' = (match o_file o with DBin => RawMemmap | DCbin => RawMtscomp end) /\
-    (o_warn o' = true <-> (o_file o = DBin /\ o_nbytes o <> 2 * w_n w * w_nc w /\ w_iw w = false)).
+    o_warn o' = false.
 Proof.
-  intros [Hn [Hc Hh]] Hs. unfold r_open. destruct (o_file o) eqn:Ef.
-  - (* bin *)
-    assert (Hdiv : fsize w DBin / (2 * w_nc w) = w_n w).
-    { unfold fsize. replace (2 * w_n w * w_nc w) with (w_n w * (2 * w_nc w)) by lia.
-      apply Z.div_mul. lia. }
-    set (mism := negb (w_nc w * o_ns o * 2 =? o_nbytes o)).
-    assert (Hns : (if mism then fsize w DBin / (2 * w_nc w) else o_ns o) = w_n w).
-    { destruct mism; [exact Hdiv|exact Hs]. }
-    rewrite Hns.
-    assert (Hchk : (0 <? w_n w) && (w_n w * w_nc w * 2 <=? fsize w DBin) = true).
-    { apply andb_true_intro. split; [apply Z.ltb_lt; lia|apply Z.leb_le; unfold fsize; lia]. }
-    rewrite Hchk. eexists. split; [reflexivity|]. cbn [o_ns o_file o_nbytes o_raw o_warn].
-    repeat (split; [reflexivity|]). unfold mism. rewrite Hs. split.
-    + intros H. apply andb_prop in H. destruct H as [H Hi]. apply negb_true_iff in Hi.
-      split; [reflexivity|split; [|exact Hi]]. apply negb_true_iff, Z.eqb_neq in H.
-      intros E. apply H. rewrite E. ring.
-    + intros [_ [H Hi]]. apply andb_true_intro. split; [|now rewrite Hi].
-      apply negb_true_iff, Z.eqb_neq. intros E. apply H. rewrite <- E. ring.
-  - (* cbin *)
-    rewrite Hh, Hs, Z.eqb_refl. eexists. split; [reflexivity|]. cbn [o_ns o_file o_nbytes o_raw o_warn].
-    split; [reflexivity|split; [reflexivity|split; [reflexivity|split; [reflexivity|]]]].
-    split; [discriminate|intros [H _]; discriminate H].
+  intros Hw Hs. destruct (r_open_gen w o Hw) as [o' [E [H1 [H2 [H3 [H4 H5]]]]]].
+  exists o'. repeat (split; [assumption|]). rewrite H5, Hs, Z.eqb_refl. reflexivity.
 Qed.
 
 (* the invariant of the current code: right sample count; whenever the object
@@ -1246,14 +1254,7 @@ Lemma r_open_inv w o : wgood w ->
     o_nbytes o' = o_nbytes o /\
     o_raw o' = (match o_file o with DBin => RawMemmap | DCbin => RawMtscomp end) /\
     o_warn o' = false.
-Proof.
-  intros Hw Hs Hb Hwn.
-  destruct (r_open_ok w o Hw Hs) as [o' [E [H1 [H2 [H3 [H4 H5]]]]]].
-  exists o'. repeat (split; [assumption|]).
-  destruct (o_warn o') eqn:Ew; [|reflexivity].
-  destruct H5 as [H5 _]. destruct (H5 eq_refl) as [Hf [Hne _]].
-  exfalso. apply Hne. rewrite (Hb Hf). reflexivity.
-Qed.
+Proof. intros Hw Hs _ _. exact (r_open_ok w o Hw Hs). Qed.
 
 Lemma r_step_inv w s op : wgood w -> RInv w s -> RInv w (fst (r_step w s op)).
 Proof.
@@ -1356,22 +1357,17 @@ Lemma r_open_any_meta w f ns0 : wgood w ->
     o_raw o' = (match f with DBin => RawMemmap | DCbin => RawMtscomp end) /\
     o_warn o' = negb (ns0 =? w_n w) && negb (w_iw w).
 Proof.
-  intros [Hn [Hc Hh]]. unfold r_open, r_init. cbn [o_file o_ns o_nbytes]. destruct f.
-  - assert (Hdiv : fsize w DBin / (2 * w_nc w) = w_n w).
-    { unfold fsize. replace (2 * w_n w * w_nc w) with (w_n w * (2 * w_nc w)) by lia.
-      apply Z.div_mul. lia. }
-    assert (Hm : negb (w_nc w * ns0 * 2 =? fsize w DBin) = negb (ns0 =? w_n w)).
-    { f_equal. unfold fsize. destruct (ns0 =? w_n w) eqn:E.
-      - apply Z.eqb_eq in E. subst. apply Z.eqb_eq. ring.
-      - apply Z.eqb_neq in E. apply Z.eqb_neq. intros H. apply E. nia. }
-    rewrite Hm.
-    assert (Hns : (if negb (ns0 =? w_n w) then fsize w DBin / (2 * w_nc w) else ns0) = w_n w).
-    { destruct (ns0 =? w_n w) eqn:E; cbn; [apply Z.eqb_eq in E; exact E|exact Hdiv]. }
-    rewrite Hns.
-    assert (Hchk : (0 <? w_n w) && (w_n w * w_nc w * 2 <=? fsize w DBin) = true).
-    { apply andb_true_intro. split; [apply Z.ltb_lt; lia|apply Z.leb_le; unfold fsize; lia]. }
-    rewrite Hchk. eexists. split; [reflexivity|]. cbn. auto.
-  - rewrite Hh. rewrite (Z.eqb_sym (w_n w) ns0).
-    destruct (ns0 =? w_n w) eqn:E; eexists; (split; [reflexivity|]); cbn;
-      [apply Z.eqb_eq in E; subst; auto|auto].
+  intros Hw. destruct (r_open_gen w (r_init w f ns0) Hw) as [o' [E [H1 [H2 [_ [H4 H5]]]]]].
+  exists o'. cbn in *. auto 6.
 Qed.
+
+(* open() does not read the cached nbytes *)
+Lemma r_open_nbytes_irrelevant w o z :
+  r_open w (mkR (o_file o) z (o_ns o) (o_raw o) (o_warn o)) =
+  option_map (fun x => mkR (o_file x) z (o_ns x) (o_raw x) (o_warn x)) (r_open w o).
+Proof.
+  unfold r_open. cbn [o_file o_ns o_nbytes]. destruct (o_file o).
+  - destruct ((0 <? _) && _); reflexivity.
+  - destruct (w_nch w =? o_ns o); reflexivity.
+Qed.
+
